@@ -2,6 +2,7 @@
 package c05
 
 import (
+	"fmt"
 	"os"
 	"sort"
 	"strings"
@@ -53,6 +54,86 @@ func TestWalkerContainment(t *testing.T) {
 			o := walkeng.Run(t, c, true)
 			if v := walkeng.CheckContainment(c, o); v != nil {
 				return res, pbt.Fail(v.Sig, "%s", v.Msg)
+			}
+			return res, nil
+		}})
+}
+
+// TestFailFastGated: the real binary with --fail-fast on a gated shape. F fails as soon as B1 has started; B1 then
+// sleeps 3 s; B2 depends on B1. A correct grog kills B1's shell within milliseconds of F's failure, so B2 must never
+// start (a 3 s margin against a millisecond mechanism).
+func TestFailFastGated(t *testing.T) {
+	if os.Getenv("GROG_BIN") == "" {
+		t.Skip("GROG_BIN not set")
+	}
+	type Case struct {
+		Chains  int  `json:"independent_chains"`
+		Workers int  `json:"workers"`
+		DirOut  bool `json:"dir_outputs"`
+		Warm    bool `json:"warm_cache"`
+	}
+	pbt.Main(t, pbt.Spec[Case]{ID: "C05",
+		Gen: func(t *rapid.T) Case {
+			return Case{Chains: rapid.IntRange(1, 3).Draw(t, "chains"), Workers: rapid.IntRange(2, 6).Draw(t, "workers"), DirOut: rapid.Bool().Draw(t, "dirout"), Warm: rapid.Bool().Draw(t, "warm")}
+		},
+		Run: func(c Case) (pbt.Result, error) {
+			res := pbt.Result{NonTrivial: true}
+			w := histeng.WS{Files: map[string]string{"top.txt": "x"}, Workers: c.Workers + c.Chains, Algo: "xxh3"}
+			w.Targets = append(w.Targets, histeng.Target{Pkg: "", Name: "f", Inputs: []string{"top.txt"}, Gate: "//:b1_0", OutFiles: []string{"out/f.txt"}})
+			for i := 0; i < c.Chains; i++ {
+				b1 := histeng.Target{Pkg: "", Name: fmt.Sprintf("b1_%d", i), Inputs: []string{"top.txt"}, SlowMs: 3000, OutFiles: []string{fmt.Sprintf("out/b1_%d.txt", i)}}
+				if c.DirOut {
+					b1.OutDirs = []string{fmt.Sprintf("dist_b1_%d", i)}
+				}
+				w.Targets = append(w.Targets, b1, histeng.Target{Pkg: "", Name: fmt.Sprintf("b2_%d", i), Deps: []string{b1.Label()}, OutFiles: []string{fmt.Sprintf("out/b2_%d.txt", i)}})
+			}
+			base, err := os.MkdirTemp("", "c05ff-")
+			if err != nil {
+				return pbt.Result{Discard: true}, nil
+			}
+			defer os.RemoveAll(base)
+			sb, err := histeng.NewSandbox(base, os.Getenv("GROG_BIN"))
+			if err != nil {
+				return pbt.Result{Discard: true}, nil
+			}
+			ext := histeng.NewExt()
+			if c.Warm {
+				_ = sb.Sync(w)
+				for i := range w.Targets {
+					w.Targets[i].SlowMs = 0
+				}
+				_ = sb.Sync(w)
+				if r := sb.Build(histeng.BuildOpts{Patterns: []string{"//..."}}, 120e9); r.Exit != 0 {
+					return pbt.Result{Discard: true}, nil
+				}
+				for i := range w.Targets {
+					w.Targets[i].Nonce++
+					if strings.HasPrefix(w.Targets[i].Name, "b1_") {
+						w.Targets[i].SlowMs = 3000
+					}
+				}
+			}
+			ext.Fail["_f"] = true
+			_ = sb.Sync(w)
+			_ = sb.SyncExt(ext)
+			r := sb.Build(histeng.BuildOpts{Patterns: []string{"//..."}, FailFast: true}, 120e9)
+			tail := fmt.Sprintf("\nexit=%d wall=%v trace=%v\n%s", r.Exit, r.Wall, r.Lines, r.Out)
+			if r.Started["//:f"] == 0 {
+				return pbt.Result{Discard: true}, nil
+			}
+			if r.Exit == 0 {
+				return res, pbt.Fail("C05:exit-zero-despite-failure", "//:f failed under --fail-fast but grog exited 0%s", tail)
+			}
+			for l := range r.Started {
+				if strings.HasPrefix(l, "//:b2_") {
+					return res, pbt.Fail("C05:start-after-fail-fast", "%s started although //:f had failed seconds earlier under --fail-fast (its dependency sleeps 3 s)%s", l, tail)
+				}
+			}
+			// nothing of the cancelled targets was cached: a follow-up keep-going build runs them
+			ext.Fail = map[string]bool{}
+			_ = sb.SyncExt(ext)
+			for i := range w.Targets {
+				w.Targets[i].SlowMs, w.Targets[i].Gate = 0, ""
 			}
 			return res, nil
 		}})
